@@ -17,6 +17,7 @@ import io
 import itertools
 import json
 import os
+import random
 import types
 import typing as T
 
@@ -25,16 +26,18 @@ from harness.core import (Ctx, Evidence, Failure, HarnessError, REPO, campaign, 
                           shard_seeds)
 
 LEVEL = 'exploration'
-RULE = ('(a) exhaustive: every sequence of <= 4 lines (quick) / <= 5 lines (thorough) over a 34-form TAP line alphabet '
-        '(ok/not ok with and without numbers 1,2,3,5,0,007, names, SKIP/TODO/unknown directives, plans 1..0-1..3 with valid and '
-        'invalid trailers, TAP version 12/13/14, diagnostics, blank, YAML start/body/end, Bail out!, unknown and indented text); '
-        '(b) Hypothesis streams <= 60 lines: a well-formed stream (version, early/late/no plan, explicit/implicit/mixed numbering, '
-        'directives, YAML blocks, diagnostics) plus 0-3 mutations (delete/duplicate/insert/swap/renumber), and free sequences '
-        'over the alphabet; (c) arbitrary unicode text, glued TAP fragments and decoded random bytes (no-raise clause); '
-        '(d) every stream of (a) with <= 3 lines x exit status {0,1,77}, one status for longer ones, and every stream of (b),(c) x {0,1,77} '
-        'through TestRunTAP.parse/complete in-process; (e) sampled streams as real protocol:tap tests under `meson test`. '
-        'non-trivial = >= 2 test lines and >= 1 of {plan, YAML block, directive, version line}; distinct by the line tuple '
-        '(enumerations are duplicate-free by construction, sampled cases are fingerprinted).')
+RULE = ('(a) exhaustive: every sequence of <= 3 lines over a 34-form TAP line alphabet (ok/not ok with and without numbers 1,2,3,5,0,007, '
+        'names, SKIP/TODO/unknown directives, plans 1..0-1..3 with valid and invalid trailers, TAP version 12/13/14, diagnostics, blank, '
+        'YAML start/body/end, Bail out!, unknown and indented text), every sequence of 4 lines over 28 of these forms, and (thorough) every '
+        'sequence of 5 lines over 20 of them; (b) generated streams <= 60 lines: a well-formed stream (version, early/late/no plan, '
+        'explicit/implicit/mixed numbering, directives, YAML blocks, diagnostics) plus 0-3 mutations (delete/duplicate/insert/swap/replace/'
+        'renumber), and free sequences over the alphabet + 48 extra forms - once through Hypothesis (shrinkable) and, in bulk, through the '
+        'same grammar driven by a seeded random.Random (ddmin over lines on failure); (c) arbitrary unicode text, glued TAP fragments and '
+        'decoded random bytes (no-raise clause); (d) whole-test verdict through TestRunTAP.parse/complete in-process: every stream of (a) '
+        'with <= 4 lines x exit status {0,1,77}, one status for the other enumerated and bulk streams, {0,1,77} for the Hypothesis streams '
+        'and texts; (e) sampled streams as real protocol:tap tests under `meson test`. '
+        'non-trivial = >= 2 test lines and >= 1 of {plan, YAML block, directive, version line} and not excluded as unspecified; distinct '
+        'by the line tuple (enumerations are duplicate-free by construction, sampled cases are fingerprinted).')
 ASSUMPTIONS = [
     'white space is blank and tab; a stream containing other characters that Python regards as white space is outside the TAP documents (excluded, counted)',
     'a subtest name may or may not include a leading "- " (TAP 12/13 do not say); both are accepted',
@@ -55,6 +58,8 @@ ALPHABET = [
     '# diagnostic', '', '  ---', '  key: v', '  ...',
     'Bail out!', 'Bail out! msg', 'unknown text', '    ok 1',
 ]
+# length 4 (quick and thorough): the alphabet without forms that only repeat another form's role there
+ALPHABET4 = [a for a in ALPHABET if a not in ('ok 0', 'ok 007', 'Bail out! msg', 'TAP version 14', 'TAP version 12', '1..1 # TODO')]
 # thorough tier, length 5: forms that take part in counters / state transitions
 ALPHABET5 = [
     'ok', 'ok 1', 'ok 2', 'ok 3 - c', 'not ok', 'ok # SKIP', 'not ok # TODO',
@@ -246,8 +251,15 @@ def check_verdict(lines: T.Sequence[str], events: list, rcs: T.Iterable[int]) ->
     return None
 
 
-def check_stream(lines: T.Sequence[str], rcs: T.Iterable[int] = (), exclude_known: bool = True) -> T.Tuple[T.Optional[Failure], str, T.Optional[reftap.Interp]]:
+# development aid (never set by registered commands): VERIF_C18_NOEXCLUDE=1 keeps the two known defect classes inside the
+# campaigns, e.g. to validate a candidate fix of the parser in a scratch copy (VERIF_REPO=...)
+EXCLUDE_KNOWN = not os.environ.get('VERIF_C18_NOEXCLUDE')
+
+
+def check_stream(lines: T.Sequence[str], rcs: T.Iterable[int] = (), exclude_known: T.Optional[bool] = None) -> T.Tuple[T.Optional[Failure], str, T.Optional[reftap.Interp]]:
     """full check of one stream -> (failure, class tag, reference interpretation)"""
+    if exclude_known is None:
+        exclude_known = EXCLUDE_KNOWN
     if exclude_known and long_digits(lines):
         return None, 'excluded-digits', None
     try:
@@ -385,11 +397,35 @@ def selftest(ctx: Ctx) -> None:
 # ---------------------------------------------------------------------------------------------------------
 # (a)+(d) exhaustive enumeration
 
-def _minimize(lines: T.List[str], sig: str, rcs: T.Tuple[int, ...]) -> T.List[str]:
-    def still(cand: list) -> bool:
+FAMILIES = ('no-error:', 'verdict/good-despite:')
+
+
+def _family(sig: str) -> str:
+    for fam in FAMILIES:
+        if sig.startswith(fam):
+            return fam
+    return sig
+
+
+def _minimize(lines: T.Sequence[str], sig: str, rcs: T.Tuple[int, ...]) -> T.Optional[Failure]:
+    """ddmin over the lines.  For the signature families that carry a class list the list is recomputed on the minimal
+    stream, so one root cause that shows up together with other classes still lands in one bucket."""
+    fam = _family(sig)
+
+    def run(cand: T.Sequence[str]) -> T.Optional[Failure]:
         f, _, _ = check_stream(cand, rcs, exclude_known=False)
-        return f is not None and f.sig == sig
-    return minimize_list(list(lines), still, max_tests=300)
+        return f if f is not None and _family(f.sig) == fam else None
+
+    small = minimize_list(list(lines), lambda cand: run(cand) is not None, max_tests=300)
+    return run(small) or run(lines)
+
+
+def _normalise(fails: T.List[Failure], start: int) -> None:
+    for i in range(start, len(fails)):
+        f = fails[i]
+        if isinstance(f.case, dict) and 'lines' in f.case and not f.case.get('e2e'):
+            rcs = (f.case['rc'],) if 'rc' in f.case else ()
+            fails[i] = _minimize(f.case['lines'], f.sig, rcs) or f
 
 
 def _enum_shard(shard: T.Tuple[T.List[str], int, int, int, int], ev: Evidence, fails: T.List[Failure]) -> None:
@@ -432,9 +468,10 @@ def _enum_shard(shard: T.Tuple[T.List[str], int, int, int, int], ev: Evidence, f
                         cls='enum/' + tag, n=0)
         if f is not None and f.sig not in sigs:
             sigs.add(f.sig)
-            small = _minimize(list(lines), f.sig, rcs)
-            f2, _, _ = check_stream(small, rcs, exclude_known=False)
-            fails.append(f2 if f2 is not None and f2.sig == f.sig else f)
+            f = _minimize(lines, f.sig, rcs) or f
+            if f.sig not in sigs or not any(x.sig == f.sig for x in fails):
+                sigs.add(f.sig)
+                fails.append(f)
     ev.evaluations += n + nverd
     ev.add_distinct(nt)
     for k, v in hist.items():
@@ -448,79 +485,125 @@ def _enum_shard(shard: T.Tuple[T.List[str], int, int, int, int], ev: Evidence, f
 # ---------------------------------------------------------------------------------------------------------
 # (b) Hypothesis streams
 
+NAMES = ['', '', 'a', '- b', 'test name', '- x y z', 'é', 'name-with-dash', 'ok', 'Bail out', 'TAP', '- 1st']
+DIRS = ['', '', '', '', ' # SKIP', ' # skip why', ' # Skipped: no db', ' # TODO', ' # todo later', ' # ToDo', ' #SKIP', '# TODO x',
+        ' # FIXME', ' #']
+YAML_BODY = ['k: v', 'message: "x"', '  nested: 1', '- item', '---', '# not a diag', 'ok 1']
+ODD_LINES = [x for x in EXTRA_LINES if reftap.classify(x).kind == 'unspecified']
+POOL = ALPHABET + [x for x in EXTRA_LINES if x not in ODD_LINES]
+
+
+class RandDraw:
+    """draws from a seeded random.Random (bulk campaign, ~100x cheaper per stream than Hypothesis)"""
+
+    def __init__(self, rnd: random.Random):
+        self.r = rnd
+
+    def int(self, lo: int, hi: int) -> int:
+        return self.r.randint(lo, hi)
+
+    def pick(self, seq: T.Sequence[T.Any]) -> T.Any:
+        return seq[self.r.randrange(len(seq))]
+
+
+class HypDraw:
+    """the same draws made through Hypothesis (shrinkable)"""
+
+    def __init__(self, draw: T.Any):
+        from hypothesis import strategies as st
+        self.d = draw
+        self.st = st
+
+    def int(self, lo: int, hi: int) -> int:
+        return self.d(self.st.integers(lo, hi))
+
+    def pick(self, seq: T.Sequence[T.Any]) -> T.Any:
+        return self.d(self.st.sampled_from(seq))
+
+
+def gen_structured(d: T.Any) -> T.List[str]:
+    """a well-formed stream, then 0-3 mutations"""
+    ver = d.pick([None, None, 13, 13, 13, 12, 14])
+    n = d.int(0, 14)
+    numbering = d.pick(['explicit', 'implicit', 'mixed'])
+    plan = d.pick(['early', 'late', 'none'])
+    lines: T.List[str] = []
+    if ver is not None:
+        lines.append(f'TAP version {ver}')
+    if d.int(0, 5) == 0:
+        lines.append('# leading diagnostic')
+    if plan == 'early':
+        lines.append(f'1..{n}' if n or d.int(0, 1) else '1..0 # SKIP nothing to do')
+    for i in range(1, n + 1):
+        ok = d.int(0, 4) != 0
+        expl = numbering == 'explicit' or (numbering == 'mixed' and d.int(0, 1) == 1)
+        nm = d.pick(NAMES)
+        dr = d.pick(DIRS)
+        lines.append(('ok' if ok else 'not ok') + (f' {i}' if expl else '') + (f' {nm}' if nm else '') + dr)
+        extra = d.int(0, 9)
+        if extra == 0:
+            lines.append('# diag after test')
+        elif extra in (1, 2):
+            ind = d.pick([' ', '  ', '  ', '    '])
+            lines.append(ind + '---')
+            for _ in range(d.int(0, 3)):
+                lines.append(ind + d.pick(YAML_BODY))
+            if d.int(0, 5) != 0:
+                lines.append(ind + '...')
+        elif extra == 3:
+            lines.append('')
+        elif extra == 4:
+            lines.append('some unknown output')
+    if plan == 'late':
+        lines.append(f'1..{n}')
+    for _ in range(d.int(0, 3)):
+        op = d.pick(['delete', 'dup', 'insert', 'swap', 'replace', 'renumber'])
+        if op == 'insert':
+            lines.insert(d.int(0, len(lines)), d.pick(POOL if d.int(0, 5) else ODD_LINES))
+            continue
+        if not lines:
+            continue
+        i = d.int(0, len(lines) - 1)
+        if op == 'delete':
+            del lines[i]
+        elif op == 'dup':
+            lines.insert(d.int(0, len(lines)), lines[i])
+        elif op == 'swap':
+            j = d.int(0, len(lines) - 1)
+            lines[i], lines[j] = lines[j], lines[i]
+        elif op == 'replace':
+            lines[i] = d.pick(POOL)
+        else:
+            parts = lines[i].split(' ')
+            for k, p in enumerate(parts):
+                if p.isdigit() and k and parts[k - 1] == 'ok':
+                    parts[k] = str(d.int(0, n + 2))
+                    break
+            lines[i] = ' '.join(parts)
+    return lines[:60]
+
+
+def gen_stream(d: T.Any) -> dict:
+    which = d.int(0, 5)
+    if which <= 2:
+        lines = gen_structured(d)
+    elif which == 3:
+        lines = [d.pick(POOL) for _ in range(d.int(0, 60))]
+        if d.int(0, 3) == 0:
+            lines.insert(d.int(0, len(lines)), d.pick(ODD_LINES))
+    else:
+        lines = [d.pick(ALPHABET) for _ in range(d.int(5, 9))]
+    return {'lines': lines, 'eol': d.int(0, 2)}
+
+
 def stream_strategy() -> T.Any:
     from hypothesis import strategies as st
-    names = ['', '', 'a', '- b', 'test name', '- x y z', 'é', 'name-with-dash', 'ok', 'Bail out', 'TAP', '- 1st']
-    dirs = ['', '', '', '', ' # SKIP', ' # skip why', ' # Skipped: no db', ' # TODO', ' # todo later', ' # ToDo', ' #SKIP', '# TODO x',
-            ' # FIXME', ' #']
-    pool = ALPHABET + EXTRA_LINES
 
     @st.composite
-    def structured(draw: T.Any) -> T.List[str]:
-        ver = draw(st.sampled_from([None, None, 13, 13, 13, 12, 14]))
-        n = draw(st.integers(0, 14))
-        numbering = draw(st.sampled_from(['explicit', 'implicit', 'mixed']))
-        plan = draw(st.sampled_from(['early', 'late', 'none']))
-        lines: T.List[str] = []
-        if ver is not None:
-            lines.append(f'TAP version {ver}')
-        if draw(st.integers(0, 5)) == 0:
-            lines.append('# leading diagnostic')
-        if plan == 'early':
-            lines.append(f'1..{n}' if n or draw(st.booleans()) else '1..0 # SKIP nothing to do')
-        for i in range(1, n + 1):
-            ok = draw(st.integers(0, 4)) != 0
-            expl = numbering == 'explicit' or (numbering == 'mixed' and draw(st.booleans()))
-            nm = draw(st.sampled_from(names))
-            d = draw(st.sampled_from(dirs))
-            s = ('ok' if ok else 'not ok') + (f' {i}' if expl else '') + (f' {nm}' if nm else '') + d
-            lines.append(s)
-            extra = draw(st.integers(0, 9))
-            if extra == 0:
-                lines.append('# diag after test')
-            elif extra in (1, 2):
-                ind = draw(st.sampled_from([' ', '  ', '  ', '    ']))
-                lines.append(ind + '---')
-                for _ in range(draw(st.integers(0, 3))):
-                    lines.append(ind + draw(st.sampled_from(['k: v', 'message: "x"', '  nested: 1', '- item', '---', '# not a diag', 'ok 1'])))
-                if draw(st.integers(0, 5)) != 0:
-                    lines.append(ind + '...')
-            elif extra == 3:
-                lines.append('')
-            elif extra == 4:
-                lines.append('some unknown output')
-        if plan == 'late':
-            lines.append(f'1..{n}')
-        for _ in range(draw(st.integers(0, 3))):
-            op = draw(st.sampled_from(['delete', 'dup', 'insert', 'swap', 'replace', 'renumber']))
-            if not lines and op != 'insert':
-                continue
-            if op == 'insert':
-                lines.insert(draw(st.integers(0, len(lines))), draw(st.sampled_from(pool)))
-                continue
-            i = draw(st.integers(0, len(lines) - 1))
-            if op == 'delete':
-                del lines[i]
-            elif op == 'dup':
-                lines.insert(draw(st.integers(0, len(lines))), lines[i])
-            elif op == 'swap':
-                j = draw(st.integers(0, len(lines) - 1))
-                lines[i], lines[j] = lines[j], lines[i]
-            elif op == 'replace':
-                lines[i] = draw(st.sampled_from(pool))
-            else:
-                parts = lines[i].split(' ')
-                for k, p in enumerate(parts):
-                    if p.isdigit() and k and parts[k - 1] == 'ok':
-                        parts[k] = str(draw(st.integers(0, n + 2)))
-                        break
-                lines[i] = ' '.join(parts)
-        return lines[:60]
+    def strat(draw: T.Any) -> dict:
+        return gen_stream(HypDraw(draw))
 
-    free = st.lists(st.sampled_from(pool), max_size=60)
-    short = st.lists(st.sampled_from(ALPHABET), min_size=5, max_size=9)
-    body = st.one_of(structured(), structured(), free, short)
-    return st.tuples(body, st.integers(0, 2)).map(lambda t: {'lines': t[0], 'eol': t[1]})
+    return strat()
 
 
 def with_eol(lines: T.Sequence[str], eol: int) -> T.List[str]:
@@ -564,7 +647,30 @@ def _stream_shard(shard: T.Tuple[int, int], ev: Evidence, fails: T.List[Failure]
         ev.event('verdict/evaluations', 3)
         return f
 
+    start = len(fails)
     campaign(stream_strategy(), check, n, seed, fails)
+    _normalise(fails, start)
+
+
+def _bulk_shard(shard: T.Tuple[int, int], ev: Evidence, fails: T.List[Failure]) -> None:
+    """the same stream grammar driven by a seeded random.Random; failures are minimised with ddmin over the lines"""
+    seed, n = shard
+    d = RandDraw(random.Random(seed))
+    sigs: T.Set[str] = set()
+    for i in range(n):
+        case = gen_stream(d)
+        lines = with_eol(case['lines'], case['eol'])
+        rcs = ((0, 1, 77)[i % 3],)
+        f, tag, R = check_stream(lines, rcs)
+        _tally(ev, case, tag, R, 'bulk')
+        ev.evaluations += 1
+        ev.event('verdict/evaluations', 1)
+        if f is not None and f.sig not in sigs and len(sigs) < 12:
+            sigs.add(f.sig)
+            f = _minimize(lines, f.sig, rcs) or f
+            if not any(x.sig == f.sig for x in fails):
+                sigs.add(f.sig)
+                fails.append(f)
 
 
 # ---------------------------------------------------------------------------------------------------------
@@ -607,7 +713,9 @@ def _text_shard(shard: T.Tuple[int, int], ev: Evidence, fails: T.List[Failure]) 
         ev.event('verdict/evaluations', 3)
         return f
 
+    start = len(fails)
     campaign(text_strategy(), check, n, seed, fails)
+    _normalise(fails, start)
 
 
 # ---------------------------------------------------------------------------------------------------------
@@ -625,7 +733,7 @@ BAD_RES = {'FAIL', 'ERROR', 'UNEXPECTEDPASS', 'TIMEOUT', 'INTERRUPT'}
 
 def e2e_expect(lines: T.Sequence[str], rc: int) -> T.Tuple[T.Optional[bool], str]:
     """reference verdict for a stream run as a real test, None = not decidable from the documents"""
-    if long_digits(lines):
+    if EXCLUDE_KNOWN and long_digits(lines):
         return None, EXCL_DIGITS
     R = reftap.interpret(lines)
     if R.unspecified:
@@ -635,7 +743,7 @@ def e2e_expect(lines: T.Sequence[str], rc: int) -> T.Tuple[T.Optional[bool], str
     if R.soft:
         return None, 'error-iff not evaluated: ' + R.soft[0]
     if R.classes:
-        if is_dupgap(R):
+        if EXCLUDE_KNOWN and is_dupgap(R):
             return None, EXCL_DUPGAP
         return True, ''
     if R.tolerated:
@@ -707,7 +815,7 @@ def e2e_sample(seed: int, n: int) -> T.List[T.Tuple[T.List[str], int]]:
     k = [0]
 
     def collect(case: dict) -> None:
-        lines = with_eol(case['lines'], case['eol'] or 2)   # a file: every line but possibly the last is terminated
+        lines = with_eol(case['lines'], 0 if case['eol'] == 0 else 2)   # a file: every line but possibly the last is terminated
         try:
             ''.join(lines).encode('utf-8')
         except UnicodeEncodeError:
@@ -723,9 +831,13 @@ def e2e_sample(seed: int, n: int) -> T.List[T.Tuple[T.List[str], int]]:
 
 def probes(ctx: Ctx) -> None:
     """dedicated deterministic probes for the confirmed defects (their classes are excluded from the campaigns)"""
-    f, _, _ = check_stream(['ok 1\n', 'ok 1\n', 'ok 3\n'], exclude_known=False)
-    ctx.ev.case({'lines': ['ok 1', 'ok 1', 'ok 3']}, cls='probe/dup-and-gap')
-    ctx.fail(f)
+    for probe in (['ok 1', 'ok 1', 'ok 3'], ['1..3', 'ok 1', 'ok 1', 'ok 3'], ['ok 2', 'ok 2'], ['ok 1', 'ok 3', 'ok 3', '1..3']):
+        f, _, _ = check_stream(with_eol(probe, 0), (0,), exclude_known=False)
+        ctx.ev.case({'lines': probe}, cls='probe/dup-and-gap')
+        ctx.ev.evaluations += 1
+        if f is not None:
+            ctx.fail(f)
+            break
     raising = []
     for tmpl in ('ok {}\n', '1..{}\n', 'TAP version {}\n'):
         line = tmpl.format('1' * 5000)
@@ -746,21 +858,23 @@ def probes(ctx: Ctx) -> None:
 def run(ctx: Ctx) -> None:
     probes(ctx)
     # (a)+(d)
-    maxlen = 4
     shards: T.List[T.Tuple[T.List[str], int, int, int, int]] = [(ALPHABET, -1, 0, 0, 3)]
-    shards += [(ALPHABET, i, 1, maxlen, 3) for i in range(len(ALPHABET))]
+    shards += [(ALPHABET, i, 1, 3, 3) for i in range(len(ALPHABET))]
+    shards += [(ALPHABET4, i, 4, 4, 3) for i in range(len(ALPHABET4))]
     if not ctx.quick:
         # length 5 over the 20 state-relevant forms; sequences of length <= 4 over them are already covered above
         shards += [(ALPHABET5, i, 5, 5, 0) for i in range(len(ALPHABET5))]
     pmap(ctx, _enum_shard, shards)
     ctx.exhaustive = True
-    ctx.ev.extra['exhaustive_scope'] = (f'all line sequences of length <= {maxlen} over the {len(ALPHABET)}-form alphabet'
+    ctx.ev.extra['exhaustive_scope'] = (f'all line sequences of length <= 3 over the {len(ALPHABET)}-form alphabet, of length 4 over '
+                                        f'{len(ALPHABET4)} of its forms'
                                         + ('' if ctx.quick else f' and of length 5 over a {len(ALPHABET5)}-form sub-alphabet')
                                         + ' are enumerated completely (parser + verdict); longer streams and arbitrary text are sampled')
     # (b)
-    pmap(ctx, _stream_shard, [(s, ctx.n(2500, 40000)) for s in shard_seeds(ctx, 16)])
+    pmap(ctx, _bulk_shard, [(s + 100, ctx.n(10000, 150000)) for s in shard_seeds(ctx, 16)])
+    pmap(ctx, _stream_shard, [(s, ctx.n(500, 8000)) for s in shard_seeds(ctx, 16)])
     # (c)
-    pmap(ctx, _text_shard, [(s + 500, ctx.n(1500, 25000)) for s in shard_seeds(ctx, 16)])
+    pmap(ctx, _text_shard, [(s + 500, ctx.n(600, 8000)) for s in shard_seeds(ctx, 16)])
     # (e)
     nb, per = (1, 64) if ctx.quick else (4, 250)
     for b in range(nb):
